@@ -124,6 +124,9 @@ class TransitionBatch:
         creates = last["op"] in ("setup_s", "setup_r", "raw_ctx", "single_shot_seal", "set_seq")
         (g[2] if (changes or creates) else g[1]).append(last)
         self.n += 1
+        seen = self.ses.check.outcomes
+        k = "%s/%s%s" % (last["op"], last.get("kind"), "/" + last["err"] if last.get("err") else "")
+        seen[k] = seen.get(k, 0) + 1
 
     def run(self):
         ses = self.ses
@@ -188,6 +191,15 @@ def _history_dependent(self, steps, idx, bad, rp, label):
 
 
 Session.history_dependent = _history_dependent
+
+
+def require_outcomes(chk, needed):
+    """vacuity guard: the generated transitions must include these (call/outcome) classes, else the model (or a menu)
+    no longer exercises what the property is about"""
+    missing = [k for k in needed if not chk.outcomes.get(k)]
+    chk.cov["outcomes_exercised"] = dict(sorted(chk.outcomes.items()))
+    if missing:
+        raise ToolError("the bounded models did not exercise: %s (have %s)" % (missing, sorted(chk.outcomes)))
 
 
 def summarise(cmd, ev):
